@@ -43,6 +43,19 @@ var psTagSrc = map[string]string{"none": "", "json": `json:"f%d,omitempty"`, "do
 
 const psReplTag = `json:"replaced,omitempty" x:"1"`
 
+// psAliasOrigin: every seventh case (without nested origin structs) reaches its origin through an alias of an internal package's struct.
+func psAliasOrigin(j int, pc psCase) bool {
+	if j%7 != 3 || pc.ErrShape != "none" {
+		return false
+	}
+	for _, k := range pc.Origin {
+		if k == "sub" || k == "subB" {
+			return false
+		}
+	}
+	return true
+}
+
 func psSources(j int, pc psCase) (origin, partial, probe string) {
 	var o strings.Builder
 	// every third origin package has a package clause that differs from its directory name (importers name it explicitly)
@@ -343,8 +356,21 @@ func psModule(from, to int, parsed []psCase, obsOf, concOf []map[string]any) err
 	defer os.RemoveAll(scratch)
 	root := filepath.Join(scratch, "m")
 	files := map[string]string{"go.mod": "module example.com/ps\n\ngo 1.24\n", "v/v.go": "// Package v is another local package.\npackage v\n\n// V is a foreign named type.\ntype V struct {\n\tN int\n}\n"}
+	originKey := map[int]string{} // the file that declares the origin struct
 	for j := from; j < to; j++ {
 		o, p, probe := psSources(j, parsed[j])
+		originKey[j] = fmt.Sprintf("o%d/o.go", j)
+		if psAliasOrigin(j, parsed[j]) {
+			// the origin the partial declaration names is an ALIAS that re-exports a struct of an internal package: the generated
+			// file can name the alias (o<j>.T), never the internal package it stands for
+			clause := fmt.Sprintf("o%d", j)
+			if j%3 == 1 {
+				clause = fmt.Sprintf("model%d", j)
+			}
+			originKey[j] = fmt.Sprintf("o%d/internal/impl/impl.go", j)
+			files[originKey[j]] = strings.Replace(strings.Replace(o, "package "+clause+"\n", "package impl\n", 1), "// Package "+clause+" holds", "// Package impl holds", 1)
+			o = fmt.Sprintf("// Package %s re-exports the origin struct of an internal package.\npackage %s\n\nimport \"example.com/ps/o%d/internal/impl\"\n\n// T is the origin, through an alias.\ntype T = impl.T\n\n// Scalar likewise.\ntype Scalar = impl.Scalar\n", clause, clause, j)
+		}
 		files[fmt.Sprintf("o%d/o.go", j)] = o
 		files[fmt.Sprintf("s%d/s.go", j)] = p
 		if probe != "" {
@@ -368,10 +394,10 @@ func psModule(from, to int, parsed []psCase, obsOf, concOf []map[string]any) err
 		earlier := map[string]string{}
 		for j := from; j < to; j++ {
 			if parsed[j].ErrShape == "none" {
-				cur := files[fmt.Sprintf("o%d/o.go", j)]
+				cur := files[originKey[j]]
 				e := strings.Replace(cur, "type T struct {\n", "type T struct {\n\t// F0 was dropped later.\n\tF0 bool\n", 1)
 				e = strings.Replace(e, "type Sub2 struct {\n\tF1 int\n\tF2 string\n}", "type Sub2 struct {\n\tF1 int\n\tF2 string\n\tC0 bool\n}", 1)
-				earlier[fmt.Sprintf("o%d/o.go", j)] = e
+				earlier[originKey[j]] = e
 			}
 		}
 		if err := core.WriteFiles(root, earlier); err != nil {
